@@ -32,7 +32,9 @@ def write(prop, tier, seed, records, wall, nviol, kunits, vunits):
     claim = [r for r in records if not (r.get("verdict", "").startswith("known-finding") or r.get("verdict") in ("finder-no-counterexample", "violation-see-pair"))]
     disc = [r for r in claim if r.get("verdict") == "discharged"]
     all_proof = all(r["kind"] == "proof" for r in claim) and len(claim) > 0
-    level = "proof" if all_proof else "other"
+    # "proof" is only a valid record when every claimed obligation was discharged on this run; a run with a
+    # failed or undecided obligation is recorded as level "other" (the explanation says what was not discharged)
+    level = "proof" if all_proof and len(disc) == len(claim) else "other"
     per = []
     funcs = []
     for r in records:
@@ -50,6 +52,9 @@ def write(prop, tier, seed, records, wall, nviol, kunits, vunits):
             "counted as proved). %d discharged on this run. Known-finding probes (expected to fail, not counted): %d. "
             "See per_obligation for statement, back end, solver time and bounds; DESIGN.md section 4 for what is not decided."
             % (len(claim), nproof, nbounded, len(disc), len(records) - len(claim)))
+    notd = [r for r in claim if r.get("verdict") != "discharged"]
+    if notd:
+        expl += " NOT discharged on this run: " + ", ".join("%s (%s)" % (r["name"], r.get("verdict")) for r in notd) + "."
     cov = {
         "obligations": len(claim),
         "discharged": len(disc),
@@ -69,8 +74,11 @@ def write(prop, tier, seed, records, wall, nviol, kunits, vunits):
         "assumptions": scan_assumptions(units_used, kunits, vunits),
         "wall_s": round(wall, 1), "violations": nviol,
     }
-    os.makedirs(os.path.join(scratch.VERIF, "evidence"), exist_ok=True)
-    p = os.path.join(scratch.VERIF, "evidence", "%s.json" % prop)
+    # VERIF_EVIDENCE_DIR: used by seeded/try.sh so that runs against a deliberately broken tree never
+    # overwrite the evidence of the unchanged tree
+    edir = os.environ.get("VERIF_EVIDENCE_DIR") or os.path.join(scratch.VERIF, "evidence")
+    os.makedirs(edir, exist_ok=True)
+    p = os.path.join(edir, "%s.json" % prop)
     json.dump(e, open(p, "w"), indent=1)
     try:
         import jsonschema
